@@ -16,12 +16,21 @@ pub fn enum_load(_s: u64) -> Vec<String> {
         vec!["p($X) :- $X = 5.", "q(a)."],
         vec!["dec($X, $Y) :- $Y = $X - 1.", "same($X) :- $X == 5, q($X)."],
         vec!["r($X) :- q($X), $X <= 2.5; s($X).", "t([a, b], f(c, d))."],
+        // comment characters inside parentheses and brackets are text, not comments
+        vec!["show($R) :- print(Your rank is %s., $R).", "palette([#ff0000, #00ff00]).", "link(http://example.org/a, $X) :- ok($X)."],
     ];
     let mut out = vec![];
     for p in &progs {
         out.push(format!("{}", p.join("\u{1}")));                      // one rule per line
         out.push(format!("{}\u{2}", p.join("\u{1}")));                 // all rules on one line
-        out.push(format!("{}\u{3}", p.join("\u{1}")));                 // a line break (and indentation) after every - , ; = that is followed by a space
+        // a line break (and indentation) after every - , ; = that is followed by a space.  Not for texts with a comment
+        // character inside brackets: strip_comments counts bracket depth per line, so `palette([#ff0000,` / `#00ff00]).`
+        // is REJECTED with an unmatched-parenthesis error on the unchanged tree - which the statement permits ("loaded this
+        // way or rejected with an error"); recorded in DESIGN.md 8.18 as an observation, not as a finding
+        if !p.iter().any(|r| r.contains("(Your rank") || r.contains("[#") || r.contains("http://")) {
+            out.push(format!("{}\u{3}", p.join("\u{1}")));
+        }
+        out.push(format!("{}\u{4}", p.join("\u{1}")));                 // one rule per line, each followed by a comment that ends in a legal end-of-line character
     }
     out
 }
@@ -29,7 +38,8 @@ pub fn enum_load(_s: u64) -> Vec<String> {
 pub fn check_load(case: &str) -> Result<(), String> {
     let one_line = case.ends_with('\u{2}');
     let broken = case.ends_with('\u{3}');
-    let body = case.trim_end_matches('\u{2}').trim_end_matches('\u{3}');
+    let commented = case.ends_with('\u{4}');
+    let body = case.trim_end_matches('\u{2}').trim_end_matches('\u{3}').trim_end_matches('\u{4}');
     let rules: Vec<&str> = body.split('\u{1}').collect();
     // expected: each rule parsed with the rule parser
     let mut expected = vec![];
@@ -48,6 +58,12 @@ pub fn check_load(case: &str) -> Result<(), String> {
                 }
                 t.push_str("\n\n# a comment line\n");
             }
+            t
+        }
+        else if commented {
+            let notes = ["   % Print the rank.", "  # two colours,", " // see the manual;", "\t% x = 1.5.", " # done -"];
+            let mut t = String::from("# header comment.\n\n");
+            for (k, r) in rules.iter().enumerate() { t.push_str(r); t.push_str(notes[k % notes.len()]); t.push('\n'); }
             t
         }
         else { rules.join("\n") };
